@@ -78,4 +78,16 @@ theorem consts : SuspendP.HALF = Gen.DISPATCH_QUEUE_SUSPEND_HALF ∧
     Gen.DISPATCH_QUEUE_HAS_SIDE_SUSPEND_CNT = 2 ^ 57 ∧ Gen.DISPATCH_QUEUE_INACTIVE = 2 ^ 56 ∧
     Gen.DISPATCH_QUEUE_NEEDS_ACTIVATION = 2 ^ 55 := by decide
 
+/-- **F43 as found**: an inactive object suspended 63 times (the inline field is full), then configured: the configuring call's own
+    suspension, a plain addition, carries out of `dq_state` - the count reads 0 with 64 suspensions outstanding -/
+theorem F43_as_found : ∃ s, SuspendP.Reachable s ∧ s.sh.logical = 63 ∧
+    (SuspendP.rawInactiveSuspend s.sh).c = 0 ∧ (SuspendP.rawInactiveSuspend s.sh).sbit = false ∧ (SuspendP.rawInactiveSuspend s.sh).logical = 64 :=
+  SuspendP.F43_as_found
+
+/-- **F43 repaired**: the configuring call's suspension keeps the count exact whenever it is taken, and is refused (the documented
+    client crash) when the inline field is full -/
+theorem inactive_configure_keeps_count (sh sh' : SuspendP.Sh) (h : SuspendP.inactiveSuspend sh = some sh') (he : sh.c + sh.side = sh.logical) :
+    sh'.c + sh'.side = sh'.logical ∧ sh'.c ≤ SuspendP.MAXC ∧ 0 < sh'.c :=
+  SuspendP.inactive_suspend_exact sh sh' h he
+
 end C06
